@@ -27,6 +27,11 @@ CONSTANTS MaxEdits,   \* N: attacker edits per handshake
                       \*   rules used as vacuity guards (TLC must find the attack)
           ExpI, ExpR, \* N: expected-peer settings explored for the initiator / the responder
           Pros,       \* N: prologue pairings explored
+          Warm,       \* process histories explored: FALSE = the attack meets a fresh process, TRUE = honest
+                      \*   sessions between the same identities (same transport/verifier objects, both
+                      \*   directions) completed first.  The rules below have no memory, so the verdicts must
+                      \*   not depend on it; the replay runs both histories on the real code, where a cache,
+                      \*   memo or pool keyed too weakly would make them differ
           TMaxMut,    \* T: certificate mutations per behaviour
           SAddrs      \* S: number of addresses of the dialled peer
 
@@ -189,14 +194,20 @@ S2Msg(c, k) ==
 S2Has(c, k) == k < 3 \/ ProI(c) = ProR(c)
 
 InitN ==
-  \E ei \in ExpI, er \in ExpR, pro \in Pros :
-    /\ st = [part |-> "N", cfg |-> [ei |-> ei, er |-> er, pro |-> pro],
+  \E ei \in ExpI, er \in ExpR, pro \in Pros, w \in Warm :
+    /\ st = [part |-> "N", cfg |-> [ei |-> ei, er |-> er, pro |-> pro], warm |-> w, warmed |-> ~w,
              k |-> 1, air |-> <<Frame(<<E("eI")>>, "I")>>,
              iS |-> "w2", rS |-> "w1", iRem |-> NoID, rRem |-> NoID, iPo |-> FALSE, rPo |-> FALSE,
              hR |-> <<>>, reR |-> "-", iRe |-> "-", iRs |-> "-", rRs |-> "-",
              iCons |-> <<>>, rCons |-> <<>>, m2 |-> <<>>, out |-> <<>>, why |-> "-",
              edits |-> 0, tr |-> <<>>]
-    /\ op = [name |-> "start", ei |-> ei, er |-> er, pro |-> pro]
+    /\ op = [name |-> "start", ei |-> ei, er |-> er, pro |-> pro, warm |-> w]
+
+\* the honest sessions of the warm history (before the attacked session starts)
+WarmN ==
+  /\ st.part = "N" /\ st.warm /\ ~st.warmed
+  /\ st' = [st EXCEPT !.warmed = TRUE, !.tr = Append(@, "warm")]
+  /\ op' = [name |-> "warm"]
 
 Code(e) == e.kind \o ":" \o ToString(e.a)
 Obs(s) == [iS |-> s.iS, rS |-> s.rS, iRem |-> s.iRem, rRem |-> s.rRem]
@@ -213,8 +224,15 @@ Obs(s) == [iS |-> s.iS, rS |-> s.rS, iRem |-> s.iRem, rRem |-> s.rRem]
 \*   splice                message k of the other session: replayed from its finished transcript, or swapped
 \*                         live between two running sessions (SwapWithSession2, Replay)
 \*   reflect               the target's own previous message sent back to it
+\* (in the warm history only the edits that re-use genuine material are explored - drop, dup, splice,
+\* reflect - next to all forgeries: those are what a weakly keyed memory could be fooled by)
 EditsOf(s) ==
   IF Len(s.air) # 1 THEN {}
+  ELSE IF s.warm THEN
+    {[kind |-> "drop", a |-> 0]}
+    \cup (IF s.air[1].pfx = "ok" THEN {[kind |-> "dup", a |-> 0]} ELSE {})
+    \cup (IF S2Has(s.cfg, s.k) THEN {[kind |-> "splice", a |-> 0]} ELSE {})
+    \cup (IF s.k = 2 \/ (s.k = 3 /\ s.m2 # <<>>) THEN {[kind |-> "reflect", a |-> 0]} ELSE {})
   ELSE
     LET fr == s.air[1]
         n == Len(fr.f)
@@ -249,7 +267,7 @@ ApplyEdit(s, e) ==
             ELSE <<[s.m2[1] EXCEPT !.orig = FALSE]>>
 
 EditN ==
-  /\ st.edits < MaxEdits
+  /\ st.warmed /\ st.edits < MaxEdits
   /\ \E e \in EditsOf(st) :
        LET a == ApplyEdit(st, e) IN
        /\ a # st.air
@@ -267,7 +285,7 @@ Process(s0, k, frames) ==
 \* parses to depends on byte counts, so nothing more is delivered to it: the attacker can only go away)
 TargetStarved(s) == IF s.k = 2 THEN s.iPo ELSE s.rPo
 DeliverN ==
-  /\ Len(st.air) > 0 /\ ~TargetStarved(st)
+  /\ st.warmed /\ Len(st.air) > 0 /\ ~TargetStarved(st)
   /\ LET s1 == Process([st EXCEPT !.air = <<>>, !.out = <<>>], st.k, st.air)
          s2 == [s1 EXCEPT !.air = s1.out, !.out = <<>>, !.k = IF s1.out # <<>> THEN (IF st.k = 2 THEN 3 ELSE 2) ELSE 0,
                           !.tr = Append(@, "deliver")]
@@ -289,7 +307,7 @@ KnowB(s) == s.reR = "eM"
 KnowA(s) == s.iS = "ok" /\ s.iRe = "eM" /\ s.iRs = "sM"
 
 ForgeN ==
-  /\ st.edits < MaxEdits
+  /\ st.warmed /\ st.edits < MaxEdits
   /\ \E kk \in 1..3, v \in PayVariants :
        /\ kk = 1 => (v = "own" /\ st.rS = "w1" /\ ~st.rPo)
        /\ kk = 2 => (st.iS = "w2" /\ ~st.iPo /\ st.k \in {0, 2} /\ (v = "relay" => KnowB(st)))
@@ -311,6 +329,7 @@ ForgeN ==
 
 \* ---- nothing in flight any more: the attacker closes both connections
 CloseN ==
+  /\ st.warmed
   /\ st.air = <<>> \/ TargetStarved(st)
   /\ st.iS = "w2" \/ st.rS \in {"w1", "w3"}
   /\ LET s2 == [st EXCEPT !.iS = IF @ = "w2" THEN "fail" ELSE @, !.rS = IF @ \in {"w1", "w3"} THEN "fail" ELSE @,
@@ -318,7 +337,7 @@ CloseN ==
      IN /\ st' = [s2 EXCEPT !.air = <<>>]
         /\ op' = [name |-> "close"] @@ Obs(s2)
 
-NextN == EditN \/ DeliverN \/ ForgeN \/ CloseN
+NextN == WarmN \/ EditN \/ DeliverN \/ ForgeN \/ CloseN
 
 \* ---- the statement
 DoneI == st.part = "N" /\ st.iS = "ok"
@@ -398,17 +417,23 @@ TVerdict(c, exp) ==
 
 TExpID(e) == CASE e = "M" -> "M" [] e = "V" -> "V" [] OTHER -> NoID
 InitT ==
-  \/ \E mal \in {"client", "server"}, e \in {"M", "V", "empty"} :
+  \/ \E mal \in {"client", "server"}, e \in {"M", "V", "empty"}, w \in Warm :
        /\ st = [part |-> "T", mal |-> mal, exp |-> e, ec |-> "-", es |-> "-", cert |-> TGenuine, muts |-> 0, tr |-> <<>>,
-                done |-> FALSE, ok |-> FALSE, rem |-> NoID]
-       /\ op = [name |-> "startT", mal |-> mal, exp |-> e]
+                warm |-> w, warmed |-> ~w, done |-> FALSE, ok |-> FALSE, rem |-> NoID]
+       /\ op = [name |-> "startT", mal |-> mal, exp |-> e, warm |-> w]
   \* two honest endpoints C (client) and S (server), each with its own expected-peer setting
   \/ \E ec \in {"match", "diff", "empty"}, es \in {"match", "diff", "empty"} :
        /\ st = [part |-> "T", mal |-> "none", exp |-> "-", ec |-> ec, es |-> es, cert |-> TGenuine, muts |-> 0, tr |-> <<>>,
-                done |-> FALSE, ok |-> FALSE, rem |-> NoID]
+                warm |-> FALSE, warmed |-> TRUE, done |-> FALSE, ok |-> FALSE, rem |-> NoID]
        /\ op = [name |-> "startT", mal |-> "none", ec |-> ec, es |-> es]
+\* warm history: the honest side and the victim V (whose genuine certificate the attacker copies from)
+\* complete honest handshakes in both directions first
+WarmT ==
+  /\ st.part = "T" /\ st.warm /\ ~st.warmed
+  /\ st' = [st EXCEPT !.warmed = TRUE, !.tr = Append(@, "warm")]
+  /\ op' = [name |-> "warm"]
 MutateT ==
-  /\ ~st.done /\ st.muts < TMaxMut /\ st.mal # "none"
+  /\ st.warmed /\ ~st.done /\ st.muts < TMaxMut /\ st.mal # "none"
   /\ \E mu \in TMuts(st.cert) :
        /\ TApply(st.cert, mu) # st.cert
        /\ st' = [st EXCEPT !.cert = TApply(st.cert, mu), !.muts = @ + 1, !.tr = Append(@, mu.m \o ":" \o mu.a)]
@@ -417,7 +442,7 @@ MutateT ==
 \* malicious side (an unmodified transport apart from its certificate, expecting nobody) accepts the
 \* honest certificate - as a client it learns of the server's refusal at its first Read
 HandshakeT ==
-  /\ ~st.done /\ st.mal # "none"
+  /\ st.warmed /\ ~st.done /\ st.mal # "none"
   /\ LET v == TVerdict(st.cert, TExpID(st.exp)) IN
      /\ st' = [st EXCEPT !.done = TRUE, !.ok = v.ok, !.rem = v.rem, !.tr = Append(@, "handshake")]
      /\ op' = [name |-> "handshake", hok |-> v.ok, hrem |-> v.rem, why |-> v.why,
@@ -434,7 +459,7 @@ HonestT ==
      IN /\ st' = [st EXCEPT !.done = TRUE, !.ok = cok /\ sok, !.tr = Append(@, "honest")]
         /\ op' = [name |-> "honest", cok |-> cok, sok |-> sok, crem |-> IF cok THEN "S" ELSE NoID,
                   srem |-> IF sok THEN "C" ELSE NoID, cread |-> cok /\ sok]
-NextT == MutateT \/ HandshakeT \/ HonestT
+NextT == WarmT \/ MutateT \/ HandshakeT \/ HonestT
 \* whoever is accepted is the holder of the identity key "M" (nobody else's private key is in the
 \* malicious endpoint's hands), under the certificate it really controls, in the one-certificate form
 AuthT == (st.part = "T" /\ st.mal # "none" /\ st.done /\ st.ok) =>
@@ -468,15 +493,21 @@ SDial(outs, i, acc) ==
                    ELSE [a EXCEPT !.res = "err", !.visible = @ \cup {"Q"}, !.closed = @ + 1]
               ELSE SDial(outs, i + 1, [a EXCEPT !.closed = @ + 1])
 InitS ==
-  \E n \in 1..SAddrs : \E outs \in [1..n -> SOut] :
-    /\ st = [part |-> "S", outs |-> outs, done |-> FALSE, res |-> "-", visible |-> {}, closed |-> 0, tried |-> 0]
-    /\ op = [name |-> "startS", outs |-> outs]
+  \E n \in 1..SAddrs : \E outs \in [1..n -> SOut] : \E w \in Warm :
+    /\ st = [part |-> "S", outs |-> outs, warm |-> w, warmed |-> ~w, done |-> FALSE, res |-> "-", visible |-> {},
+             closed |-> 0, tried |-> 0]
+    /\ op = [name |-> "startS", outs |-> outs, warm |-> w]
+\* warm history: an honest dial of P succeeded (and its connection was closed) before
+WarmS ==
+  /\ st.part = "S" /\ st.warm /\ ~st.warmed
+  /\ st' = [st EXCEPT !.warmed = TRUE]
+  /\ op' = [name |-> "warm"]
 DialS ==
-  /\ ~st.done
+  /\ st.warmed /\ ~st.done
   /\ LET r == SDial(st.outs, 1, [res |-> "-", visible |-> {}, closed |-> 0, tried |-> 0]) IN
      /\ st' = [st EXCEPT !.done = TRUE, !.res = r.res, !.visible = r.visible, !.closed = r.closed, !.tried = r.tried]
      /\ op' = [name |-> "dial", res |-> r.res, visible |-> r.visible, closed |-> r.closed, tried |-> r.tried]
-NextS == DialS
+NextS == WarmS \/ DialS
 \* a dial for P never hands the application a connection authenticated as anyone else
 DialAuthS == (st.part = "S" /\ st.done) => (st.res \in {"P", "err"} /\ st.visible \subseteq {"P"})
 \* every connection to somebody else that a transport returned was closed
